@@ -188,6 +188,42 @@ def divisor_rule(ctx: Ctx, reach):
     ctx.floor("R11.7", 12)
 
 
+def ordered_dates_rule(ctx: Ctx):
+    """R11.9: a task is marked scheduled with start <= end.  Where the pre-pass of scheduleScenario marks a task scheduled on the
+    strength of its two pinned dates alone (neither is written in that branch), the order of the two is a must-fact there."""
+    ss = ctx.repo.func("Project.scheduleScenario")
+    g = cfg_of(ss)
+    facts = facts_of(ss)
+    n = 0
+    for node in g.nodes:
+        a = node.ast
+        if not (node.kind == "stmt" and isinstance(a, ast.Assign) and isinstance(a.targets[0], ast.Subscript)
+                and isinstance(a.targets[0].slice, ast.Tuple) and a.targets[0].slice.elts and isinstance(a.targets[0].slice.elts[0], ast.Constant)
+                and a.targets[0].slice.elts[0].value == "scheduled" and isinstance(a.value, ast.Constant) and a.value.value is True):
+            continue
+        cls = facts.at(node)
+        units = {tuple(cl)[0] for cl in cls if len(cl) == 1}
+        both = ("start", True) in units and ("end", True) in units
+        if not both:
+            continue
+        # neither date is assigned in the same block
+        blk = getattr(a, "_parent", None)
+        sibs = getattr(blk, "body", []) + getattr(blk, "orelse", [])
+        if any(isinstance(x, ast.Assign) and isinstance(x.targets[0], ast.Subscript) and isinstance(x.targets[0].slice, ast.Tuple)
+               and isinstance(x.targets[0].slice.elts[0], ast.Constant) and x.targets[0].slice.elts[0].value in ("start", "end") for x in sibs):
+            continue
+        n += 1
+        ok = bool(units & {("start <= end", True), ("end >= start", True), ("start > end", False), ("end < start", False)})
+        ctx.ob("R11.9", f"{ss.qual}: {norm(a)} on two pinned dates", (ss, a), ok,
+               "the task is marked scheduled only when its start does not lie after its end" if ok else
+               "a task pinned to end before it starts is marked scheduled as it is: start > end in the result, and successors are placed from an "
+               "end that precedes the start",
+               key="R11.9|Project.scheduleScenario|pinned dates ordered")
+    if not n:
+        raise AnchorMissing("scheduleScenario: no branch that marks a task scheduled on two pinned dates")
+    ctx.floor("R11.9", 1)
+
+
 TREE_WORDS = ("children", "kids", "parent", "parents", "adoptees", "stepParents", "ancestors")
 
 
@@ -200,6 +236,7 @@ def run(ctx: Ctx):
     reach = ctx.cg.reach(roots)
     ctx.stats["functions_reachable"] = len(reach)
     divisor_rule(ctx, reach)
+    ordered_dates_rule(ctx)
     # ---------------------------------------------------------------- R11.1
     n_while = 0
     undecided = []
